@@ -271,13 +271,13 @@ func (l *sequenceListener) ExitWildcardAS(c *sequence.WildcardASContext) {
 }
 
 func (l *sequenceListener) ExitLegacyAS(c *sequence.LegacyASContext) {
-	re := c.GetText()[1:]
+	re := canonicalAS(c.GetText()[1:])
 	//fmt.Printf("LegacyAS: %s RE: %s\n", c.GetText(), re)
 	l.push(re)
 }
 
 func (l *sequenceListener) ExitAS(c *sequence.ASContext) {
-	re := c.GetText()[1:]
+	re := canonicalAS(c.GetText()[1:])
 	//fmt.Printf("AS: %s RE: %s\n", c.GetText(), re)
 	l.push(re)
 }
@@ -292,6 +292,18 @@ func (l *sequenceListener) ExitIFace(c *sequence.IFaceContext) {
 	re := c.GetText()
 	//fmt.Printf("IFace: %s RE: %s\n", c.GetText(), re)
 	l.push(re)
+}
+
+// canonicalAS returns the AS number in the spelling that GetSequence uses for
+// the hops of a path (addr.AS.String), so that ASes are compared by value
+// rather than by spelling (e.g. "FF00:0:110" or "0:0:110" for 272). Text that
+// is not a valid AS number is kept as is; it matches no hop.
+func canonicalAS(s string) string {
+	as, err := addr.ParseAS(s)
+	if err != nil {
+		return s
+	}
+	return as.String()
 }
 
 func hop(ia addr.IA, ingress, egress iface.ID) string {
